@@ -8,6 +8,7 @@ import (
 	"fmt"
 	"sort"
 	"strings"
+	"sync/atomic"
 	"time"
 
 	"github.com/pion/rtp"
@@ -82,7 +83,7 @@ type c31Emitted struct {
 	popIdx int
 }
 
-func c31Run(in c31In) (V, Verdict) {
+func c31RunInner(in c31In) (V, Verdict) {
 	dep := c31Dep{}
 	ids := map[*rtp.Packet]int{}
 	var releasedNow []int
@@ -226,6 +227,36 @@ func c31Run(in c31In) (V, Verdict) {
 		verdict.Class = fmt.Sprintf("%s/samples%s", in.Class, c31Bucket(len(emitted)))
 	}
 	return obs, verdict
+}
+
+// c31Hung is set once a case did not finish: the builder is looping (a mutant, or a
+// defect), every further run would cost the full deadline, so shrinking is switched off.
+var c31Hung atomic.Bool
+
+const c31Deadline = 25 * time.Second
+
+func c31Run(in c31In) (V, Verdict) {
+	type res struct {
+		o V
+		v Verdict
+	}
+	ch := make(chan res, 1)
+	go func() {
+		defer func() {
+			if r := recover(); r != nil {
+				ch <- res{VS("PANIC"), Fail("panic-in-builder", fmt.Sprintf("panic: %v", r))}
+			}
+		}()
+		o, v := c31RunInner(in)
+		ch <- res{o, v}
+	}()
+	select {
+	case r := <-ch:
+		return r.o, r.v
+	case <-time.After(c31Deadline):
+		c31Hung.Store(true)
+		return VS("TIMEOUT"), Fail("builder-does-not-return", fmt.Sprintf("an operation did not return within %s", c31Deadline))
+	}
 }
 
 func c31Bucket(n int) string {
@@ -810,6 +841,9 @@ func c31Corpus() []c31In {
 
 func c31Shrink(in c31In) []c31In {
 	var out []c31In
+	if c31Hung.Load() {
+		return nil
+	}
 	n := len(in.Ops)
 	del := func(keep func(i int, op c31Op) bool, frames [][]int) {
 		c := in
